@@ -141,7 +141,8 @@ class Lang:
         ops = []
         for o in d["ops"]:
             body = None if o["body"] is None else (o["body"][0], tup(o["body"][1]))
-            ops.append({"name": o["name"], "nvars": o["nvars"], "type": tup(o["type"]), "body": body})
+            ops.append({"name": o["name"], "nvars": o["nvars"], "type": tup(o["type"]), "body": body,
+                        "slack": o.get("slack")})
         return Lang(d["nbase"], {int(k): v for k, v in d["parents"].items()}, list(d["srcs"]), ops)
 
     def sub_base(self, i, j):
@@ -243,10 +244,10 @@ class Gen:
 
 
 def gen_lang(rng: random.Random) -> Lang:
-    nbase = rng.randint(1, 4)
+    nbase = rng.choice([1, 2, 2, 3, 3, 4])
     parents = {}
     for i in range(1, nbase):
-        if rng.random() < 0.65:
+        if rng.random() < 0.75:
             parents[i] = rng.randrange(i)
     srcs = [rng.randrange(nbase) for _ in range(rng.randint(1, 3))]
     # every base type with no source below it gets one, so arguments exist
@@ -296,8 +297,9 @@ def gen_lang(rng: random.Random) -> Lang:
         # the other way round (unsound where the body needs it: validate()
         # should then reject the definition)
         r = rng.random()
-        if r < 0.3:
-            sound = r < 0.2
+        slack = None
+        if r < 0.5:
+            sound = r < 0.3
             pos = [j for j, p_ in enumerate(ps) if p_[0] == 'b'] + ([-1] if res[0] == 'b' else [])
             rng.shuffle(pos)
             for j in pos:
@@ -310,8 +312,9 @@ def gen_lang(rng: random.Random) -> Lang:
                         res = ('b', rng.choice(cands))
                     else:
                         ps[j] = ('b', rng.choice(cands))
+                    slack = "declared_narrower_than_body" if sound else "declared_wider_than_body"
                     break
-        lang.ops.append({"name": f"d{di}", "nvars": 0, "type": fn(ps, res), "body": (k, body)})
+        lang.ops.append({"name": f"d{di}", "nvars": 0, "type": fn(ps, res), "body": (k, body), "slack": slack})
         if not small_normal_form(lang, ('op', len(lang.ops) - 1), max_nodes=300):
             lang.ops.pop()      # thrice (thrice thrice) ... : the definition alone is astronomic
             continue
@@ -440,10 +443,103 @@ def small_normal_form(lang: Lang, t, max_nodes=1200, max_work=150000, max_depth=
 
     def size(t):
         return 1 + (size(t[1]) + size(t[2]) if t[0] == 'app' else size(t[1]) if t[0] == 'lam' else 0)
+
     try:
         return size(norm(t)) <= max_nodes
     except (_Budget, RecursionError):
         return False
+
+
+def duplicates_abstraction(lang: Lang, t, max_work=40000):
+    """Input shape of the pinned tree's defect, decided in the order the code
+    works (bind first, normalise afterwards): during leftmost-outermost
+    evaluation some argument that contains a composite operator or an
+    abstraction is substituted for a parameter that occurs at least twice.
+    Returns True / False, or None when the budget runs out."""
+    work = [0]
+
+    def tick():
+        work[0] += 1
+        if work[0] > max_work:
+            raise _Budget
+
+    def db(t, k):
+        if t[0] == 'par':
+            return ('var', k - 1 - t[1])
+        if t[0] == 'app':
+            return ('app', db(t[1], k), db(t[2], k))
+        return t
+
+    def shift(t, d, c):
+        tick()
+        if t[0] == 'var':
+            return ('var', t[1] + d) if t[1] >= c else t
+        if t[0] == 'app':
+            return ('app', shift(t[1], d, c), shift(t[2], d, c))
+        if t[0] == 'lam':
+            return ('lam', shift(t[1], d, c + 1))
+        return t
+
+    def subst(b, x, k):
+        tick()
+        if b[0] == 'var':
+            return shift(x, k, 0) if b[1] == k else (('var', b[1] - 1) if b[1] > k else b)
+        if b[0] == 'app':
+            return ('app', subst(b[1], x, k), subst(b[2], x, k))
+        if b[0] == 'lam':
+            return ('lam', subst(b[1], x, k + 1))
+        return b
+
+    def has_abs(t):
+        return t[0] == 'lam' or (t[0] == 'op' and lang.composite(t[1])) or \
+            (t[0] == 'app' and (has_abs(t[1]) or has_abs(t[2])))
+
+    def occurs(t, k):
+        if t[0] == 'var':
+            return int(t[1] == k)
+        if t[0] == 'app':
+            return occurs(t[1], k) + occurs(t[2], k)
+        if t[0] == 'lam':
+            return occurs(t[1], k + 1)
+        return 0
+
+    class Found(Exception):
+        pass
+
+    def whnf(t, d):
+        tick()
+        if d > 600:
+            raise _Budget
+        if t[0] == 'op' and lang.composite(t[1]):
+            k, body = lang.ops[t[1]]["body"]
+            u = db(body, k)
+            for _ in range(k):
+                u = ('lam', u)
+            return whnf(u, d + 1)
+        if t[0] == 'app':
+            f = whnf(t[1], d + 1)
+            if f[0] == 'lam':
+                if occurs(f[1], 0) >= 2 and has_abs(t[2]):
+                    raise Found
+                return whnf(subst(f[1], t[2], 0), d + 1)
+            return ('app', f, t[2])
+        return t
+
+    def nf(t, d):
+        t = whnf(t, d)
+        if t[0] == 'lam':
+            nf(t[1], d + 1)
+        elif t[0] == 'app':
+            nf(t[1], d + 1)
+            nf(t[2], d + 1)
+
+    try:
+        nf(t, 0)
+        return False
+    except Found:
+        return True
+    except (_Budget, RecursionError):
+        return None
 
 
 # --------------------------------------------------------------------------
@@ -808,6 +904,14 @@ def gen_cases(rng: random.Random, nlang: int, nexpr: int, depth: int):
     return cases
 
 
+# Root cause of the silent failures of the pinned tree (wrong tree, wrong type,
+# ill-typed result, with no exception): a parameter that occurs twice in a
+# definition is bound to ONE abstraction object, which the first occurrence
+# reduces in place.  Without a hook the heap history cannot be observed, so the
+# signature is given to such failures on inputs of exactly that shape.
+SHARE_SIG = "C15:abstraction-bound-to-a-parameter-used-twice-is-reduced-in-place"
+
+
 class Runner:
     def __init__(self, rep: C.Report):
         self.rep = rep
@@ -844,12 +948,33 @@ class Runner:
                 valid[i] = False
                 self.dist["definitions_dropped_by_validate"] += 1
                 continue
+            sk = o.get("slack")
             try:
                 impl.ops[i].validate()
+                why = self.unusable_at_declared_type(impl, i)
+                if why is not None:
+                    # validate() let through a definition that cannot stand in
+                    # for the operator: reported once, here, with its root
+                    # cause, and the operator is not used further
+                    valid[i] = False
+                    self.dist["validated_but_unusable_at_declared_type"] = \
+                        self.dist.get("validated_but_unusable_at_declared_type", 0) + 1
+                    self.viol(f"declared_{li}_{i}", {
+                        "kind": "oracle", "language": lang.to_json(), "operator": o["name"],
+                        "declared_type": tstr(o["type"]), "definition": term_str(lang, o["body"][1]),
+                        "what": "Operator.validate() accepts a definition whose inferred type is not a subtype of "
+                                "the declared type, so a well-typed use expands to an ill-typed or less specifically "
+                                "typed expression: " + why},
+                        has_input=True, signature="C15:validate-accepts-definition-not-subtype-of-declaration")
+                    continue
                 self.dist["definitions_validated"] += 1
+                if sk:
+                    self.dist[f"validated:{sk}"] = self.dist.get(f"validated:{sk}", 0) + 1
             except E.DeclarationError:
                 valid[i] = False
                 self.dist["definitions_dropped_by_validate"] += 1
+                if sk:
+                    self.dist[f"dropped:{sk}"] = self.dist.get(f"dropped:{sk}", 0) + 1
             except BaseException as ex:   # noqa: the defect surfacing inside validate()
                 valid[i] = False
                 sig, where = crash_signature(ex)
@@ -858,6 +983,21 @@ class Runner:
                     "language": lang.to_json(), "operator": o["name"], "exception": type(ex).__name__,
                     "message": str(ex)[:200], "where": where}, has_input=True, signature=sig)
         return valid
+
+    def unusable_at_declared_type(self, impl: Impl, i: int):
+        """the definition's inferred type must be a subtype of (an instance
+        of) the declared type; None if it is"""
+        T, E = impl.T, impl.E
+        op = impl.ops[i]
+        try:
+            inferred = op.instance().primitive(unify=False).type
+            declared = op.type.instance()
+            inferred.unify(declared, subtype=True)
+        except T.TypingError as ex:
+            return f"{type(ex).__name__}: {ex}"
+        except BaseException:   # noqa: crashes are reported where they occur in use
+            return None
+        return None
 
     def run(self, cases, tag):
         blocks, kept = [], []
@@ -904,7 +1044,11 @@ class Runner:
         ops = term_ops(t)
         comp = any(lang.composite(k) for k in ops)
         self.dist["contains_composite"] += comp
-        share = comp and shares_abstraction(lang, t)
+        share = False
+        if comp:
+            share = duplicates_abstraction(lang, t)
+            if share is None:
+                share = shares_abstraction(lang, t)
         self.dist["parameter_used_twice_gets_abstraction"] += share
         sz = term_size(t)
         self.sizes[sz] = self.sizes.get(sz, 0) + 1
@@ -941,21 +1085,22 @@ class Runner:
         impl.defects(p, bad)
         if notes.get("free_variable") or notes.get("unknown_source"):
             bad.append("result mentions a variable bound nowhere / a source that is not in the language")
+        ssig = SHARE_SIG if share else None
         if bad:
             self.viol(f"notnormal_{li}_{ei}", dict(payload, kind="oracle", what="; ".join(sorted(set(bad)))),
-                has_input=True)
+                has_input=True, signature=ssig)
         # the expansion is itself well-typed at every application
         bad = []
         impl.ill_typed_nodes(p, bad, self.dist)
         if bad:
             self.viol(f"illtyped_{li}_{ei}", dict(payload, kind="oracle", what="; ".join(sorted(set(bad)))),
-                has_input=True)
+                has_input=True, signature=ssig)
         # (3) same or more specific type
         ok, why = impl.more_specific(after, before)
         if not ok:
             self.viol(f"type_{li}_{ei}", dict(payload, kind="oracle",
                 what="the type of the expansion is not the same as or more specific than the type of "
-                     f"the unexpanded expression ({why})"), has_input=True)
+                     f"the unexpanded expression ({why})"), has_input=True, signature=ssig)
         # (4) expanding again changes nothing
         try:
             p2 = p.primitive()
@@ -963,11 +1108,11 @@ class Runner:
             after2 = impl.snap(p2.type)
             if enc2 != enc:
                 self.viol(f"idem_{li}_{ei}", dict(payload, kind="oracle", second=enc2,
-                    what="expanding the expansion again changes the expression"), has_input=True)
+                    what="expanding the expansion again changes the expression"), has_input=True, signature=ssig)
             elif not (impl.more_specific(after2, after)[0] and impl.more_specific(after, after2)[0]):
                 self.viol(f"idemtype_{li}_{ei}", dict(payload, kind="oracle",
                     second_type=impl.snap_str(after2),
-                    what="expanding the expansion again changes its type"), has_input=True)
+                    what="expanding the expansion again changes its type"), has_input=True, signature=ssig)
         except BaseException as ex:   # noqa
             sig, where = crash_signature(ex)
             self.viol(f"idemraise_{li}_{ei}", dict(payload, kind="oracle",
@@ -1003,7 +1148,8 @@ class Runner:
             # (C15_normal, C15_normal_form): the implementation's is not
             self.viol(f"disagree_{li}_{ei}", dict(payload, kind="correspondence+oracle", impl=ob["enc"],
                 what="primitive() differs from the δβ-normal form (model proved: C15_normal, C15_normal_form)",
-                parameter_used_twice_gets_abstraction=ob["share"]), has_input=True)
+                parameter_used_twice_gets_abstraction=ob["share"]), has_input=True,
+                signature=SHARE_SIG if ob["share"] else None)
 
 
 def enc_term(t, k=0):
@@ -1075,7 +1221,7 @@ def main(tier: str, seed: int, replay: str | None = None) -> int:
     if tier == "quick":
         cases = gen_cases(rng, 40, 25, 4)
     else:
-        cases = gen_cases(rng, 500, 40, 4)
+        cases = gen_cases(rng, 900, 40, 4)
     run = Runner(rep)
     run.run(cases, tier)
     rep.coverage.update({
